@@ -128,7 +128,7 @@ def key_map(key, desc, h):
 def run(chk: Check):
     mgr_check.run_property(
         chk, "C03", "Props.C03", THEOREMS,
-        model_profiles={"malformed": 220, "faults": 220, "routing": 60},
+        model_profiles={"malformed": 220, "faults": 220, "routing": 60, "nested": 100},
         oracle_flavors={},
         checkers=CHECKERS,
         extra_histories=directed, known_key_map=key_map,
